@@ -73,3 +73,30 @@ def _c04():
 
 
 _c04()
+
+# ---------------------------------------------------------------- C18
+LAYOUT_FNS = ["air/src/layout.rs re-instantiated byte for byte: struct_layout, resolved_layout, layout_of, align_to, references_by_value"]
+for _k, _t, _tier in ((0, 120, "quick"), (1, 300, "quick"), (2, 400, "quick"), (3, 900, "thorough"), (4, 1200, "thorough")):
+    ob("C18", "O1k%d" % _k, "leaf", "c18_layout.rs", "c18_o1_fields%d" % _k, tier=_tier, timeout=_t, stubbing=True,
+       what="struct_layout of a %d-field struct: offsets/size/align satisfy the declarative SysV rules (least padding, size multiple of max alignment)" % _k,
+       functions=LAYOUT_FNS, bounds="exactly %d fields; each field symbolic among 15 leaf types (ints, floats, bool, str, pointers, slice) or a fixed array of 0..=4 such leaves" % _k,
+       stubs=["std::hash::RandomState::new -> fixed keys (the map stays empty)"])
+ob("C18", "O2", "leaf", "c18_layout.rs", "c18_o2_align_to", timeout=120, stubbing=True,
+   what="align_to(o,a) is the least multiple of a >= o", functions=LAYOUT_FNS, bounds="o < 2^31, a in {1,2,4,8,16}")
+ob("C18", "O4", "leaf", "c18_layout.rs", "c18_o4_references_by_value", timeout=120, stubbing=True,
+   what="references_by_value holds iff the struct is mentioned outside a pointer", functions=LAYOUT_FNS, bounds="type depth <= 2, two names")
+
+for _h, _shape in (("c04_v1_shape_w1_k0", "1 word, no constants"), ("c04_v1_shape_w2_k1_nested", "2 words, 1 constant, nested function"),
+                   ("c04_v1_shape_w3_k2_nested_upvals", "3 words, 2 constants, nested function with an upvalue descriptor, own upvalue descriptor"),
+                   ("c04_v1_shape_w1_k1_upval", "1 word, 1 constant, own upvalue descriptor")):
+    ob("C04", "V1_" + _h.split("shape_")[1], "runtime", "shell.rs", _h, path=SHELL_PATH + _h, tier="thorough", timeout=3000,
+       args=["--default-unwind", "5"],
+       what="the verifier is total on this shape (no panic / out-of-bounds index for any first word, any constants) and what it accepts "
+            "satisfies the guarantees the handlers document they rely on (cache words inside the bytecode, constant / upvalue operands inside their tables, "
+            "MakeClosure's marker and descriptor count, jump targets inside 0..=len)",
+       functions=["vm::verifier::verify_function and everything under vm/verifier/**", "OpCode::from_u8"],
+       bounds="shape: %s; first word fully symbolic (any opcode byte, any operands); trailing words are Return0; constants any bit pattern; global unwind 5" % _shape,
+       stubs=VM_STUBS)
+ob("C04", "V2", "runtime", "shell.rs", "c04_v2_from_u8_declared_only", path=SHELL_PATH + "c04_v2_from_u8_declared_only", tier="quick", timeout=300,
+   what="OpCode::from_u8(b) is Some exactly for the declared discriminants (table generated from opcode.rs) and round-trips",
+   functions=["aelys_bytecode::OpCode::from_u8"], bounds="none: all 256 bytes", stubs=[])
